@@ -9,6 +9,8 @@ for p in $PROPS; do
   python3 "$(dirname "$0")/check.py" $p --tier $TIER > /var/tmp/runall-$p.out 2>&1
   rc=$?
   t1=$(date +%s)
+  # the thorough tier's evidence is kept aside: evidence/<id>.json is rewritten by every run
+  if [ "$TIER" = thorough ]; then mkdir -p "$(dirname "$0")/../evidence-thorough"; cp "$(dirname "$0")/../evidence/$p.json" "$(dirname "$0")/../evidence-thorough/$p.json" 2>/dev/null; fi
   echo "$p rc=$rc wall=$((t1-t0))s $(tail -n 1 /var/tmp/runall-$p.out | cut -c1-150)" >> $OUT
 done
 echo DONE >> $OUT
